@@ -137,10 +137,11 @@ class Scenario:
     """One execution: scheduler + net + a node + the scripted peer.  Use as a context manager."""
 
     def __init__(self, seed=0, strategy="rr", p=0.2, role="client", apps=(), watchdog=30, lines=False,
-                 max_steps=400_000, replay=None, pct_depth=3, guard=True, wall_s=60):
+                 max_steps=400_000, replay=None, pct_depth=3, guard=True, wall_s=60, transport="TCP"):
         self.sched = vsched.Sched(seed=seed, strategy=strategy, p=p, max_steps=max_steps, replay=replay, pct_depth=pct_depth, wall_s=wall_s)
         self.net = vnet.Net(self.sched)
         self.role = role
+        self.transport = transport
         self.apps = list(apps)
         self.watchdog = watchdog
         self.lines = lines
@@ -158,6 +159,8 @@ class Scenario:
 
     def __enter__(self):
         install(self.sched, self.net)
+        if self.transport == "SCTP":
+            vnet.install_fake_sctp(self.net)
         if self.guard is not None:
             self.guard.install()
             self.guard.limit = 200_000      # a generous absolute bound inside scenarios (inputs are small)
@@ -210,7 +213,7 @@ class Scenario:
             laddr, paddr = LOCAL_ADDR, PEER_ADDR
         else:
             laddr, paddr = LOCAL_ADDR, PEER_ADDR
-        return {"MODE": "CLIENT" if self.role == "client" else "SERVER",
+        return {"MODE": "CLIENT" if self.role == "client" else "SERVER", "TRANSPORT_TYPE": self.transport,
                 "APPLICATIONS": [{"vendor_id": b"\x00\x00\x28\xaf", "app_id": u32(a)} for a in self.apps],
                 "LOCAL_NODE_HOSTNAME": local[0], "LOCAL_NODE_REALM": local[1],
                 "LOCAL_NODE_IP_ADDRESS": laddr[0], "LOCAL_NODE_PORT": laddr[1],
